@@ -125,6 +125,31 @@ pub fn run(seed: u64, count: usize, thorough: bool, out: &mut Out) {
         b"HETATM    3 ZN    ZN A 101      15.000   8.000  -4.000  1.00 20.00          ZNA+\n".to_vec(),
         b"HETATM    3 ZN    ZN A 101      15.000   8.000  -4.000  1.00 20.00          ZN2x\n".to_vec(),
     ];
+    // 4. long runs of one record: the chain names generated for blank chain ids go round the alphabet, model after model
+    let blank_atom = |k: usize| format!("ATOM  {:5}  CA  ALA  {:4}      11.104   6.134  -6.504  1.00 10.00           C  \n", k % 100_000, k % 10_000);
+    for n in [1usize, 25, 26, 27, 51, 52, 53, 61, 62, 63, 64, 130, 700] {
+        let mut t = String::new();
+        for _ in 0..n {
+            t.push_str(if rng.chance(1, 2) { "TER\n" } else { "TER                                                                             \n" });
+        }
+        t.push_str(&blank_atom(1));
+        t.push_str("END\n");
+        emit(out, t.as_bytes(), 0, rng.below(3), "run:ter-then-blank-chain");
+        // and one atom per generated chain
+        let mut t = String::new();
+        for k in 0..n.min(130) {
+            t.push_str(&blank_atom(k + 1));
+            t.push_str("TER\n");
+        }
+        emit(out, t.as_bytes(), rng.below(8), 2, "run:blank-chains");
+        let mut t = String::new();
+        for k in 0..n.min(130) {
+            t.push_str(&format!("MODEL     {:4}\n", k + 1));
+            t.push_str(&blank_atom(1));
+            t.push_str("TER\nENDMDL\n");
+        }
+        emit(out, t.as_bytes(), rng.below(8), rng.below(3), "run:models");
+    }
     for e in edge {
         for level in 0..3 {
             emit(out, &e, 0, level, "edge");
